@@ -30,6 +30,7 @@ THEOREMS = [("Arc.Storage.Props", t) for t in (
 TIE_NAME = ("C08 correspondence (storage.LocalBackend.validatePath/sanitizePath/Write/WriteReader/AppendReader, "
             "raft.ValidateManifestPath, edgesync.validateSyncPath/validateSpokeID/NamespacedPath vs Arc.Storage.Model) / Params_Storage")
 LOCAL_GO = "internal/storage/local.go"
+FULL_OBS = 1500          # keys for which sanitizePath / validators / NamespacedPath are observed as well
 
 # crash points: textual rewrites of the CURRENT local.go (anchor, replacement, min count)
 CRASH_REWRITES = [
@@ -48,7 +49,7 @@ CRASH_REWRITES = [
     ("\t// Atomic promotion: rename staging", "\tverifPoint(\"wr:before-rename\")\n\t// Atomic promotion: rename staging", 1),
     # AppendReader
     ("\twritten, err := io.Copy(file, reader)\n", "\tverifPoint(\"ar:after-open\")\n\twritten, err := io.Copy(file, reader)\n", 1),
-    ("\tif written == appendSize {\n", "\tverifPoint(\"ar:after-copy\")\n\tif written == appendSize {\n", 1),
+    ("\tif written ", "\tverifPoint(\"ar:after-copy\")\n\tif written ", 1),
     ("\t\tif err := os.Rename(stagingPath, fullPath); err != nil {\n", "\t\tverifPoint(\"ar:before-rename\")\n\t\tif err := os.Rename(stagingPath, fullPath); err != nil {\n", 1),
     # common tail of WriteReader and AppendReader (after the rename, if any)
     ("\tmetrics.Get().IncStorageWriteBytes(written)\n", "\tverifPoint(\"r:end\")\n\tmetrics.Get().IncStorageWriteBytes(written)\n", 2),
@@ -119,14 +120,20 @@ def gen_key(rng):
         if rng.random() < 0.15:
             s += b"/"
         return s
-    if k < 0.7:        # traversal attempts
+    if k < 0.45:       # edge-sync style keys: mostly valid parquet paths with one oddity
+        n = rng.randint(1, 4)
+        segs = [rng.choice([b"db", b"cpu", b"2026", b"h", b"a_b", b"x.y"]) for _ in range(n)] + [rng.choice([b"f.parquet", b"f.parquet", b".parquet", b"f.parq", b"f..parquet", b"f.parquet\x00"])]
+        if rng.random() < 0.4:
+            segs[rng.randrange(len(segs))] = rng.choice([b".", b"", b"..", b".h", b"a\\b", b"a:b", b"\xc3\xa9"])
+        return b"/".join(segs)
+    if k < 0.75:       # traversal attempts
         n = rng.randint(1, 7)
         segs = [rng.choice([b"..", b".\x00.", b".", b"", b"r", b"tmp", b"etc", b"...", b"..\x00", b"\x00..", b".\x00.\x00.", b"a", b"\x00"]) for _ in range(n)]
         s = b"/".join(segs)
         if rng.random() < 0.3:
             s = b"/" + s
         return s
-    if k < 0.9:        # malformed stream of atoms
+    if k < 0.92:       # malformed stream of atoms
         return b"".join(rng.choice(ATOMS) for _ in range(rng.randint(0, 8)))
     return bytes(rng.choice([0, 46, 46, 47, 92, 95, 97, 0xC3, 0xA9, 58]) for _ in range(rng.randint(0, 10)))
 
@@ -224,9 +231,18 @@ def wcase_to_coq(c):
 
 
 def kcase_to_coq(c):
-    return ("{| k_root := %s; k_key := %s; k_obs := %s; k_san := %s; k_manifest := %s; k_sync := %s; k_spoke := %s; k_ns := %s |}") % (
-        "verif_root%d" % c["root"], ch(c["key"]), chopt(c["obs"]), ch(c["san"]),
-        cbool(c["manifest"]), cbool(c["sync"]), cbool(c["spoke"]), ch(c["ns"]))
+    vals = "None"
+    if c.get("manifest") is not None:
+        vals = "(Some (Build_kvals %s %s %s %s %s))" % (ch(c["san"]), cbool(c["manifest"]), cbool(c["sync"]), cbool(c["spoke"]), ch(c["ns"]))
+    return "(Build_kcase verif_root%d %s %s %s)" % (c["root"], ch(c["key"]), obs_term(c), vals)
+
+
+def obs_term(c):
+    """observed path written relative to the root bytes when it starts with them (shorter case files)"""
+    o, rb = c["obs"], c["root_bytes"]
+    if o is not None and o.startswith(rb):
+        return "(Some (app verif_rootb%d %s))" % (c["root"], ch(o[len(rb):]))
+    return chopt(o)
 
 
 def lcase_to_coq(c):
@@ -243,16 +259,18 @@ def run_impl(keys, libs, crash, tag):
                               {"internal/storage/zz_storage_verif_test.go": "harness/storage/storage_verif_test.go"},
                               cases, rewrites={LOCAL_GO: CRASH_REWRITES}, tag=tag)
     vals = []
+    nval = min(len(keys), FULL_OBS)
     if keys:
         vals = vlib.run_go_harness("C08", "./internal/edgesync/", "^TestVerifKeyValidators$",
                                    {"internal/edgesync/zz_keys_verif_test.go": "harness/storage/edgesync_keys_verif_test.go"},
-                                   [{"key": hx(k)} for _, k in keys], tag=tag + "_val")
-    if len(out["keys"]) != len(keys) or len(vals) != len(keys) or len(out["crash"]) != len(crash) or len(out["lib"]) != len(libs):
+                                   [{"key": hx(k)} for _, k in keys[:nval]], tag=tag + "_val")
+    if len(out["keys"]) != len(keys) or len(vals) != nval or len(out["crash"]) != len(crash) or len(out["lib"]) != len(libs):
         raise vlib.TieBroken("C08 harness returned a different number of results")
+    vals = vals + [{"manifest": None, "sync": None, "spoke": None, "ns": ""}] * (len(keys) - nval)
     roots = [bytes.fromhex(r) for r in out["roots"]]
     kc = []
     for (r, k), o, v in zip(keys, out["keys"], vals):
-        kc.append({"root": r, "key": k, "obs": unh(o["obs"]), "san": bytes.fromhex(o["san"]),
+        kc.append({"root": r, "root_bytes": roots[r], "key": k, "obs": unh(o["obs"]), "san": bytes.fromhex(o["san"]),
                    "manifest": v["manifest"], "sync": v["sync"], "spoke": v["spoke"], "ns": bytes.fromhex(v["ns"])})
     lc = [{"a": a, "b": b, "clean": bytes.fromhex(o["clean"]), "rel": unh(o["rel"])} for (a, b), o in zip(libs, out["lib"])]
     return kc, lc, out["crash"], roots
@@ -288,7 +306,8 @@ def crash_collect(ops, idx, out):
 def root_header(roots):
     h = HEADER
     for i, r in enumerate(roots):
-        h += "Definition verif_root%d : list bytes := %s.\n" % (i, clist([ch(x) for x in r.split(b"/") if x]))
+        h += "Definition verif_root%d : list bytes := %s.\n" % (i, clist([ch(x) for x in r.split(b"/") if x]) if r != b"/" else "(@nil bytes)")
+        h += "Definition verif_rootb%d : bytes := %s.\n" % (i, ch(r))
     return h
 
 
@@ -343,9 +362,10 @@ def run(res, tier, seed):
         "C08_*_atomic assume the reader hands over exactly the intended bytes before a clean EOF (WriteReader ignores `size`: C08_write_reader_ignores_size); the callers' guards are part of C25/C27",
     ]
 
-    nkeys = 5000 if tier == "quick" else 60000
-    nlib = 600 if tier == "quick" else 8000
-    nops = 150 if tier == "quick" else 1500
+    scale = float(os.environ.get("VERIF_SCALE") or "1")          # for development runs on a busy machine
+    nkeys = int((5000 if tier == "quick" else 60000) * scale)
+    nlib = int((600 if tier == "quick" else 8000) * scale)
+    nops = int((150 if tier == "quick" else 1500) * scale)
     t1 = time.time()
     keys = []
     for i, k in enumerate(EDGE_KEYS):
@@ -382,6 +402,7 @@ def run(res, tier, seed):
     res.cov["histogram"] = {
         "keys": len(kc), "keys_nontrivial": len(nt_keys), "keys_accepted": acc, "keys_rejected": len(kc) - acc,
         "keys_with_nul": sum(1 for c in kc if b"\x00" in c["key"]), "keys_recreating_dotdot": sum(1 for c in kc if b".." in c["san"]),
+        "keys_with_validators_observed": sum(1 for c in kc if c["manifest"] is not None),
         "keys_manifest_ok": sum(1 for c in kc if c["manifest"]), "keys_sync_ok": sum(1 for c in kc if c["sync"]), "keys_spoke_ok": sum(1 for c in kc if c["spoke"]),
         "per_root": {roots[i].decode("utf-8", "replace"): sum(1 for c in kc if c["root"] == i) for i in range(len(roots))},
         "lib_cases": len(lc), "crash_runs": len(wc), "crash_inside": len(nt_crash),
@@ -403,9 +424,10 @@ def run(res, tier, seed):
             k2, _, _, rr = run_impl([(root, key)], [], [], "shrink")
             return bool(evaluate(k2, [], [], rr, "Shrink")["koracle"])
         small = shrink_key(c["root"], c["key"], esc) if len(r["koracle"]) < 20 else c["key"]
-        k2, _, _, _ = run_impl([(c["root"], small)], [], [], "shrink")
+        k2, _, _, rr = run_impl([(c["root"], small)], [], [], "shrink")
+        shown = dict(show_k(k2[0]), root=rr[c["root"]].decode("utf-8", "replace"))
         res.violation("the real validatePath returned a path outside the root",
-                      {"kind": "escape", "case": {"root": c["root"], "key_hex": hx(small)}, "resolved": show_k(k2[0])})
+                      {"kind": "escape", "case": {"root": c["root"], "key_hex": hx(small)}, "resolved": shown})
         reported = True
         break
     for idx in r["woracle"]:
